@@ -52,7 +52,7 @@ def gen_pep440(repo, out):
     emit_pairs(out, "LEGACY_REPLACEMENT_MAP", dict_items(top_assign(mod, "_legacy_version_replacement_map")), "_legacy_version_replacement_map")
 
 
-EXTRA_GENERATORS.append(gen_pep440)
+EXTRA_GENERATORS.append(("pep440", gen_pep440))
 
 
 # ---------------------------------------------------------------- rewrite: open() arguments and generator consumption
@@ -122,7 +122,7 @@ def gen_rewrite(repo, out):
                   % (modname, "list(iter_rewritten(...))" if e else "the lazy generator iter_rewritten(...)", modname[:2].upper(), "true" if e else "false"))
 
 
-EXTRA_GENERATORS.append(gen_rewrite)
+EXTRA_GENERATORS.append(("rewrite", gen_rewrite))
 
 
 # ---------------------------------------------------------------- legacy (v1) tables
@@ -161,7 +161,7 @@ def gen_v1(repo, out):
     emit_pairs(out, "V1_PEP440_MAPPING", chain, "v1patterns._normalized_pattern: version_pattern -> replacement of {pep440_version}")
 
 
-EXTRA_GENERATORS.append(gen_v1)
+EXTRA_GENERATORS.append(("v1", gen_v1))
 
 
 # ---------------------------------------------------------------- vcs command templates
@@ -190,7 +190,7 @@ def gen_vcs(repo, out):
     emit_str(out, "DEFAULT_TAG_MESSAGE", cstr(top_assign(cfg, "DEFAULT_TAG_MESSAGE")), "config.DEFAULT_TAG_MESSAGE")
 
 
-EXTRA_GENERATORS.append(gen_vcs)
+EXTRA_GENERATORS.append(("vcs", gen_vcs))
 
 
 # ---------------------------------------------------------------- config: formats, candidates, defaults, init templates
@@ -272,6 +272,6 @@ def gen_config(repo, out):
                   "Definition DEFAULT_PATTERNS_%s : list (list N * list N) := [\n%s\n].\n\n" % (label, label, ";\n".join(rows)))
 
 
-EXTRA_GENERATORS.append(gen_config)
+EXTRA_GENERATORS.append(("config", gen_config))
 
 import t1_calls  # noqa: F401,E402  (structural call orders)
